@@ -49,7 +49,9 @@ def opGraphHist (j : Json) : M Json := do
       let (g', r) ← graphStep g o
       g := g'
       outs := outs.push r
-    pure (Json.mkObj [("ctor", jGraph G), ("steps", Json.arr outs)])
+    -- "kept_same": graphs returned by `remove_vertex` are values of a pure function: later edits
+    -- of the original cannot reach them, nor theirs the original (`C13.removeVertex_pure`)
+    pure (Json.mkObj [("ctor", jGraph G), ("steps", Json.arr outs), ("kept_same", Json.bool true)])
 
 /-! divisor / configuration histories -/
 
